@@ -25,8 +25,8 @@ CHECKS = {
  "C20": ("virtual-time (testing/synctest) monitor comparing return time, returned set, error and Has() of WatchSet.Wait with an executable model over random close/cancel/settle schedules",
          "Exploration: seeded random schedules run under virtual time so that return instants are exact; up to three consecutive Wait calls per set; sets built with Add duplicates, Clear and Merge; all three settle regimes and cancellation before/after the first close.",
          "Event times are kept distinct so the model has no ties; real-timer granularity is out of scope (virtual time).", "5/C20"),
- "C01": ("transcript monitor: retained snapshots (and retained result sequences) are re-queried after every later transaction/abort/collection window and compared with the transcript recorded at creation and with the model of that snapshot; virtual time for graveyard collection",
-         "Exploration: seeded random histories under testing/synctest with the DB started; up to 16 retained snapshots per history taken between transactions, while a write transaction is pending and from Commit; LPM-heavy variant with several objects per prefix.",
+ "C01": ("transcript monitor: retained snapshots (and retained result sequences) are re-queried after every later transaction/abort/collection window and compared with the transcript recorded at creation and with the model of that snapshot; virtual time for graveyard collection; race detector with concurrent snapshot readers, a writer and a table registrar",
+         "Exploration: seeded random histories under testing/synctest with the DB started; up to 16 retained snapshots per history taken between transactions, while a write transaction is pending and from Commit; LPM-heavy variant with several objects per prefix; table registrations running into commits; plus a -race part where 6 readers rebuild the model from each snapshot's primary index, check every index against it and keep re-verifying retained transcripts (and the set of tables) while a writer history and a registrar run.",
          "Trusts the reference model (harness/dbsim) and the fixed probe battery; frozenness is decided by transcript equality on a fixed probe set per snapshot, not on all possible queries.", "5/C01"),
  "C03": ("reference-model monitor (keyed map with learned revisions) over return values, error kinds and in-transaction reads of random write histories; race/checkptr slice",
          "Exploration: seeded random histories of all RWTable write operations with guards drawn from current/stale/foreign/future revisions, writes on tables not held and through finished handles, commits and aborts; every return value and the query battery (inside the transaction, after commit, after abort) is compared with the model.",
@@ -34,9 +34,9 @@ CHECKS = {
  "C04": ("reference-model monitor: full query battery on every index compared with results brute-forced from the model's object set (result-sequence oracle)",
          "Exploration: seeded random histories over four schemas (unique, non-unique multi-key, NetIPPrefix LPM, unique LPM) with hostile keys; Get/List/Prefix/LowerBound/All/NumObjects/by-revision and AnyTable string queries inside write transactions and on snapshots.",
          "Trusts the brute-force model; LPM Get/List only with full-length keys and stored prefixes; nil keys mean 'no key'.", "5/C04"),
- "C07": ("change-stream monitor: per-iterator replay map and the model's committed write/deletion log, under virtual time with graveyard collection running",
+ "C07": ("change-stream monitor: per-iterator replay map and the model's committed write/deletion log, under virtual time with graveyard collection running; hook-point probe of the commit window; Observable stream; real-time consumer goroutines under the race detector",
          "Exploration: seeded random histories under testing/synctest (collector every 1 ms of virtual time): iterators created at arbitrary points incl. inside transactions and aborted ones, Next with fresh/older/write transactions, partial consumption, Close; strictly increasing revisions, only-committed, replay==snapshot, deletions delivered, open channel closed by the next commit.",
-         "Snapshots passed to Next are monotone and not older than the iterator; the consumer-loop wake-up is covered by the channel-state check at each commit, not by blocked goroutines in this part.", "5/C07"),
+         "Snapshots passed to Next are monotone and not older than the iterator. Under real concurrency whether Next's channel was already closed cannot be observed reliably, so convergence is judged after a non-empty fully drained sequence and at the final quiescent state; the missed-wake-up window (Next between root store and notification) is enumerated with the committer paused at the hook points.", "5/C07"),
  "C09": ("revision monitor: the model learns each revision from Revision(wtxn) and asserts strict monotonicity, attribution, no change on rejected/no-op/aborted/collector/tracker commits, ByRevision order",
          "Exploration: seeded random histories (sequential) plus histories with change iterators, Close and graveyard collection commits under virtual time.",
          "Revisions are required to be strictly increasing, not +1; concurrent writers on other tables are exercised by the C05/C10 stress parts.", "5/C09"),
